@@ -108,6 +108,10 @@ def run(ctx: Ctx) -> None:
     ctx.call(A.definitions, "12", only=('shared_results','shared_started_workers','shared_finished_workers','is_flat'))
     ctx.call(A.involved_workers, "12i")
     ctx.call(A.fresh_state, "12f")
+    from . import graphrules as GR3
+
+    # results and occupation are shared through DIRECT bridges only: every place creating nodes must bridge all pairs
+    ctx.call(GR3.bridging_sites, "14")
 
 
 G = "cartgraph/graph.py"
